@@ -62,7 +62,8 @@ BuildTable      == /\ Room
                    /\ Log([op |-> "BuildTable"])
 Ask(q)          == /\ Room /\ Askable(q) /\ Sampled(q)
                    /\ UNCHANGED st /\ lastop' = "ask"
-                   /\ Log([op |-> "Ask", q |-> q, w |-> Where(Eff(st.defs, q), q.s), want |-> SAnswer(st.cfg, st.defs, q)])
+                   /\ Log([op |-> "Ask", q |-> q, w |-> Where(Eff(st.defs, q), q.s),
+                            x |-> B(q.op = "trade_date" /\ TodayOff(Eff(st.defs, q), q.s, q.a)), want |-> SAnswer(st.cfg, st.defs, q)])
 
 Next == \/ \E sc \in Sess : SetDefaults(sc)
         \/ \E H \in Hols : EditHolidays(H)
